@@ -194,11 +194,19 @@ func closedOnAllExits(mk *ssa.MakeChan) bool {
 				continue
 			}
 			bi, ok := d.Call.Value.(*ssa.Builtin)
-			if !ok || bi.Name() != "close" || len(d.Call.Args) != 1 {
-				continue
-			}
-			if unwrap(d.Call.Args[0]) != ssa.Value(mk) {
-				continue
+			if !ok {
+				// defer func() { close(stop); ... }() or defer helper(stop, ...): the deferred function
+				// closes the channel first thing, on every path
+				if !deferredFuncCloses(d, mk) {
+					continue
+				}
+			} else {
+				if bi.Name() != "close" || len(d.Call.Args) != 1 {
+					continue
+				}
+				if unwrap(d.Call.Args[0]) != ssa.Value(mk) {
+					continue
+				}
 			}
 			// the defer must be registered before any return: its block dominates every returning block
 			all := true
@@ -462,6 +470,12 @@ func ruleLMSentinel(p *Prog, r *Reporter) {
 				ok := iterLoop != nil && !iterLoop.body[snd.Block()] && hasGuard(snd.Block(), iterCond, false)
 				r.Check(ok, pos, p.FuncName(body), "send ErrWorldRunLimitMaxIterations", "sent only after the iteration loop is exhausted", "ErrWorldRunLimitMaxIterations is not tied to exhaustion of the maxIterations loop")
 				seen["iterations"]++
+			case sentinelOf(val) == "ErrWorldRunLimitTimeout":
+				// the worker may report the deadline itself: only where it has just observed it
+				// (the Done() case of a select, or ctx.Err() != nil)
+				ok := deadlineObserved(p, snd.Block())
+				r.Check(ok, pos, p.FuncName(body), "send ErrWorldRunLimitTimeout", "sent only where the worker has observed the deadline (Done() case or ctx.Err() != nil)", "ErrWorldRunLimitTimeout is sent on a path on which the deadline was not observed")
+				seen["timeout-worker"]++
 			case sentinelOf(val) != "":
 				r.Bad(pos, p.FuncName(body), "send "+sentinelOf(val), "unexpected sentinel produced by the worker")
 			default:
@@ -578,6 +592,42 @@ func ruleLMOpts(p *Prog, r *Reporter) {
 		used, how := p.optsConsumed(fn, last, 0)
 		r.Check(used, p.Pos(fn.Pos()), p.FuncName(fn), "options ..."+shortType(sl.Elem()), how,
 			"the variadic options are accepted but neither applied in a full-range loop nor forwarded: limits supplied by the caller are silently dropped")
+		// an option that wraps sub-options must add them to what the object already has: building a
+		// replacement object from its own arguments discards what an earlier use of the same option configured
+		for _, cl := range fn.AnonFuncs {
+			if len(cl.Params) != 1 {
+				continue
+			}
+			for _, b := range cl.Blocks {
+				for _, in := range b.Instrs {
+					st, isSt := in.(*ssa.Store)
+					if !isSt {
+						continue
+					}
+					fa, isFA := st.Addr.(*ssa.FieldAddr)
+					if !isFA || fa.X != ssa.Value(cl.Params[0]) {
+						continue
+					}
+					call, isC := st.Val.(*ssa.Call)
+					if !isC || len(call.Call.Args) == 0 {
+						continue
+					}
+					fromOpts := false
+					if ld, isLd := call.Call.Args[len(call.Call.Args)-1].(*ssa.UnOp); isLd && ld.Op == token.MUL {
+						if _, isFV := ld.X.(*ssa.FreeVar); isFV {
+							fromOpts = true
+						}
+					}
+					usesOld := dependsOn(call, func(x ssa.Value) bool {
+						f2, ok := x.(*ssa.FieldAddr)
+						return ok && f2.X == ssa.Value(cl.Params[0]) && f2.Field == fa.Field
+					})
+					if fromOpts {
+						r.Check(usesOld, p.instrPos(st), p.FuncName(cl), "options are cumulative", "added to the object's existing configuration", "the option replaces "+fieldName(fa)+" by an object built from its own arguments only: when the option is given twice (for instance a longer duration appended to caller-supplied options) every limit set by the first use silently falls back to its default")
+					}
+				}
+			}
+		}
 		// every call that accepts the same kind of options must receive the caller's options
 		// (a path that builds the result without them silently falls back to the defaults)
 		for _, c := range callsIn(fn) {
